@@ -319,20 +319,32 @@ def run (E : Env) : St → List Op → St × List Res
       let rest := run E r.1 ops
       (rest.1, r.2 :: rest.2)
 
+/-- the state after the history `ops` (from module import) -/
+def after (E : Env) (ops : List Op) : St := (run E St.init ops).1
+
+/-- what the call `op` answers after the history `ops` -/
+def answer (E : Env) (ops : List Op) (op : Op) : Res := (step E (after E ops) op).2
+
 /-! ## Concrete environment pieces used by the driver -/
 
 /-- `str.lower` on ASCII text -/
-def asciiLower (s : String) : String := s.map Char.toLower
+def asciiLower (s : String) : String := String.ofList (s.toList.map Char.toLower)
 
-/-- `fnmatch.fnmatchcase` for patterns without `[`: `*` any run, `?` any one character -/
+/-- all suffixes of a list, longest first -/
+def suffixes {α : Type} : List α → List (List α)
+  | [] => [[]]
+  | a :: t => (a :: t) :: suffixes t
+
+/-- `fnmatch.fnmatchcase` for patterns without `[`: `*` any run, `?` any one
+character (arguments: pattern, file name) -/
 def globMatch : List Char → List Char → Bool
-  | [], [] => true
-  | [], _ :: _ => false
-  | p :: ps, [] => p == '*' && globMatch ps []
-  | p :: ps, c :: cs =>
-      if p == '*' then globMatch ps (c :: cs) || globMatch (p :: ps) cs
-      else (p == '?' || p == c) && globMatch ps cs
-termination_by p t => p.length + t.length
+  | [], t => t.isEmpty
+  | p :: ps, t =>
+      if p == '*' then (suffixes t).any (globMatch ps)
+      else
+        match t with
+        | [] => false
+        | c :: cs => (p == '?' || p == c) && globMatch ps cs
 
 def asciiEnv (eps : List LangDesc) (geps : List GenDesc) : Env :=
   { lower := asciiLower, fnm := fun f p => globMatch p.toList f.toList, eps := eps, geps := geps }
@@ -454,6 +466,48 @@ def Spec.Run (E : Env) : Spec → List Op → List Res → Spec → Prop
   | a, [], rs, a' => rs = [] ∧ a' = a
   | a, op :: ops, rs, a'' =>
       ∃ r rs' a', rs = r :: rs' ∧ Spec.Step E a op r a' ∧ Spec.Run E a' ops rs' a''
+
+/-! ## The registered set, read off the history
+
+`live E ops` lists the language descriptors registered after the history
+`ops`: the entry points, plus — since the last clear — every registration whose
+case-folded name was not taken.  `gLive` is the same for generators. -/
+
+def liveStep (E : Env) (l : List LangDesc) : Op → List LangDesc
+  | .regLang d => if l.any (fun d' => E.lower d'.name == E.lower d.name) then l else l ++ [d]
+  | .clearLangs => E.eps
+  | _ => l
+
+def live (E : Env) (ops : List Op) : List LangDesc := ops.foldl (liveStep E) E.eps
+
+def gLiveStep (E : Env) (l : List GenDesc) : Op → List GenDesc
+  | .regGen g =>
+      if l.any (fun g' => E.lower g'.language == E.lower g.language && E.lower g'.target == E.lower g.target)
+      then l else l ++ [g]
+  | .clearGens => E.geps
+  | _ => l
+
+def gLive (E : Env) (ops : List Op) : List GenDesc := ops.foldl (gLiveStep E) E.geps
+
+/-- the meta-model objects a result hands out -/
+def Res.mmObjs : Res → List MM
+  | .mm m => [m]
+  | .mms ms => ms
+  | _ => []
+
+/-- the meta-model object `m` belongs to the language `d`: it is the instance `d`
+was registered with, or a product of `d`'s factory -/
+def Owns (d : LangDesc) : MM → Prop
+  | .given u => d.mm = .inst u
+  | .made _ b _ => d.mm = .factory ∧ b = d.uid
+
+/-- calls that cannot replace a cached meta-model: everything except clearing
+the language registry and asking for a meta-model with keyword arguments -/
+def Op.keepsCache : Op → Bool
+  | .clearLangs => false
+  | .mmLang _ kw => kw == 0
+  | .mmForFile _ kw => kw == 0
+  | _ => true
 
 /-- what the specification assumes about the environment -/
 structure Env.Ok (E : Env) : Prop where
